@@ -3,7 +3,13 @@ package coding
 type Splitter func(rune) int
 
 var (
-	_7BitSplitter      Splitter = func(rune) int { return 7 }
+	_7BitSplitter Splitter = func(r rune) int {
+		switch r {
+		case '\f', '[', '\\', ']', '^', '{', '|', '}', '~', '€':
+			return 14
+		}
+		return 7
+	}
 	_1ByteSplitter     Splitter = func(rune) int { return 8 }
 	_MultibyteSplitter Splitter = func(r rune) int {
 		if r < 0x7F {
